@@ -2,8 +2,8 @@
    Conn/Checks.v) accepts EVERY trace of the connection handler's model: for every
    configuration, every behaviour of the modelled third-party code (RSA, serde), every
    adapter result and latency, every inbox of client frames and every timing. *)
-From Passage Require Import Lib.Bytes Codec.Desc Gen.PacketsGen Conn.Types Conn.Prog Conn.Sem1
-  Conn.Monitor Conn.MonitorProofs Conn.Order Conn.OrderProofs Conn.Checks Conn.Walk_C01 Conn.HistoryProofs Conn.C01Corollaries.
+From Passage Require Import Lib.Bytes Codec.Desc Gen.PacketsGen Conn.Types Conn.Prog Conn.Sem1 Conn.Sem2
+  Conn.Monitor Conn.MonitorProofs Conn.Monitor2Proofs Conn.Order Conn.OrderProofs Conn.Checks Conn.Walk_C01 Conn.HistoryProofs Conn.C01Corollaries.
 
 Theorem C01_walk : forall o cfg, safe (step_with (chk_c01 o cfg)) m_init (listen o cfg).
 Proof. exact listen_c01_safe. Qed.
@@ -38,7 +38,7 @@ Theorem C01_login_success_guarded : forall o cfg e ib pre u n x post,
        | Some false => exists c, cookie_accepted o cfg (h st1) = Some c
        | None => False
        end.
-Proof. exact login_success_guarded. Qed.
+Proof. intros o cfg e ib. exact (login_success_guarded o cfg _ (c01_accepts o cfg e ib)). Qed.
 
 (* The authentication service is only ever asked with the shared secret of this connection,
    the server's public key, the effective client address and the name the client claimed. *)
@@ -49,10 +49,47 @@ Theorem C01_auth_call_guarded : forall o cfg e ib pre cl host port proto n u sec
     /\ token_verified o (h st) = Some ss /\ secret = ss
     /\ pk = cf_pubkey cfg /\ sa_eqb cl (cf_client cfg) = true
     /\ claimed (h st) = Some (cn, cu) /\ n = cn /\ u = cu.
-Proof. exact auth_call_guarded. Qed.
+Proof. intros o cfg e ib. exact (auth_call_guarded o cfg _ (c01_accepts o cfg e ib)). Qed.
+
+(* ---- the same at byte level (M2): for every timed byte stream the client can send, however
+   it is segmented and wherever keep-alive ticks and adapter completions fall - including the
+   schedules on which the handler drops a partly read frame (known classes K1 / K4 of C08). *)
+Lemma c01_accepts2 : forall o cfg e segs, ok (step_with (chk_c01 o cfg)) m_init (untime (run2 o cfg e segs)).
+Proof. intros. unfold run2. apply safe_sound2. apply listen_c01_safe. Qed.
+
+Theorem C01_accepts_bytes : forall o cfg e segs,
+  accepts (step_with (chk_c01 o cfg)) m_init (untime (run2 o cfg e segs)) = true.
+Proof. intros. apply ok_accepts. apply c01_accepts2. Qed.
+
+Theorem C01_login_success_guarded_bytes : forall o cfg e segs pre u n x post,
+  untime (run2 o cfg e segs) = pre ++ TSend login_cb_LoginSuccessPacket [VZ u; VB n; x] :: post ->
+  exists st st1 ss,
+    run (step_with (chk_c01 o cfg)) m_init pre = Some st
+    /\ user_is o cfg (h st) n u = true
+    /\ reach (chk_c01 o cfg) st1
+    /\ token_verified o (h st1) = Some ss
+    /\ (exists newer, h st = newer ++ TEnc ss :: h st1)
+    /\ match sent_flag (h st1) with
+       | Some true => exists pn pu pp, res_of_auth (h st1) = Some (RProfile pn pu pp)
+       | Some false => exists c, cookie_accepted o cfg (h st1) = Some c
+       | None => False
+       end.
+Proof. intros o cfg e segs. exact (login_success_guarded o cfg _ (c01_accepts2 o cfg e segs)). Qed.
+
+Theorem C01_auth_call_guarded_bytes : forall o cfg e segs pre cl host port proto n u secret pk post,
+  untime (run2 o cfg e segs) = pre ++ TCall (CAuth cl host port proto n u secret pk) :: post ->
+  exists st ss cn cu,
+    run (step_with (chk_c01 o cfg)) m_init pre = Some st
+    /\ token_verified o (h st) = Some ss /\ secret = ss
+    /\ pk = cf_pubkey cfg /\ sa_eqb cl (cf_client cfg) = true
+    /\ claimed (h st) = Some (cn, cu) /\ n = cn /\ u = cu.
+Proof. intros o cfg e segs. exact (auth_call_guarded o cfg _ (c01_accepts2 o cfg e segs)). Qed.
 
 Print Assumptions C01_walk.
 Print Assumptions C01_login_success_guarded.
 Print Assumptions C01_auth_call_guarded.
 Print Assumptions C01_accepts.
 Print Assumptions C01_every_event_checked.
+Print Assumptions C01_accepts_bytes.
+Print Assumptions C01_login_success_guarded_bytes.
+Print Assumptions C01_auth_call_guarded_bytes.
